@@ -18,6 +18,7 @@ import (
 	"net/url"
 	"runtime"
 	"runtime/debug"
+	"strconv"
 	"strings"
 	"sync"
 	"unsafe"
@@ -148,11 +149,22 @@ type storeReq struct {
 	Panics bool   `json:"handler_panics,omitempty"`
 }
 
+var storeReqSeq int
+
 // do serves one request; the panic of a panicking handler is recovered here.
 func (m *storeMux) do(q storeReq, names []string) (rec *storeRec, panicked string) {
 	rec = &storeRec{names: names, code: q.Code, panics: q.Panics}
 	req := (&http.Request{Method: q.Method, URL: &url.URL{Path: q.Path}, Header: http.Header{}}).
 		WithContext(context.WithValue(context.Background(), storeCtxKey{}, rec))
+	// some requests carry the headers proxies and clients commonly add: what a request carries must
+	// never influence what a LATER request observes
+	storeReqSeq++
+	if storeReqSeq%7 == 3 {
+		req.Header.Set("X-Request-Id", "trace-"+strconv.Itoa(storeReqSeq%97))
+		req.Header.Set("X-Client-IP", "203.0.113.9")
+		req.Header.Set("X-Forwarded-For", "198.51.100.1, 10.0.0.1")
+		req.Header.Set("Cookie", "sid=abc")
+	}
 	defer func() {
 		if r := recover(); r != nil {
 			panicked = fmt.Sprint(r)
